@@ -48,6 +48,8 @@ var CorpusHand = []RouteSet{
 	// 1 and 7 are routes that do not ignore trailing slashes in C11
 	rs("host-overlap-tsr", "GET", "/z", "b/x/", "/w", "/v", "b/y", "/u", "/t", "{h}/x"),
 	rs("param-wild-siblings", "GET", "/fs/{f}", "/q", "/r/", "/s", "/t", "/u", "/fs/*{p}"),
+	// one node key holding two parameters followed by more text
+	rs("host-two-params", "GET", "{a}.{b}.c/x", "/x", "/w"),
 }
 
 // fanout has 60 sibling first bytes under "/" (the 50-child linear/binary search switch).
